@@ -467,6 +467,43 @@ pub fn judge(prop: &str, d: Option<&Driver>, names: &[String], policy: Policy, k
                     ev.failures.push(fail("C16", "recovered-log-accounting", idx, format!("{what}: {msg}")));
                 }
             }
+            // what recovery itself writes and removes (its GC pass) must not cost anything more: the same oracle
+            // applies to the log as it comes back from one more, clean, restart
+            if let (Some(d), true, true) = (d, ev.failures.is_empty(), matches!(prop, "C08" | "C09" | "C12")) {
+                w.fs.borrow_mut().set_budget(400 + 24 * crate::crash::blocks_on_disk(image) + 200);
+                let reopened = w.open();
+                w.fs.borrow_mut().clear_budget();
+                match reopened {
+                    Err(e) => {
+                        if prop == "C09" {
+                            ev.failures.push(fail("C09", "open-failed-after-clean-restart", idx, format!("{what}: open succeeded, but after a clean restart {}", open_fail_text(&e))));
+                        }
+                    }
+                    Ok(()) => {
+                        if let Ok(obs2) = w.observe() {
+                            let verdict: Option<(String, String)> = match prop {
+                                "C08" => c08_oracle(&appended_sets(d), &obs2),
+                                "C09" => {
+                                    let nothing = EntryKind::Undecodable;
+                                    let mut v = c09_oracle(d, damaged_entry.unwrap_or(&nothing), &obs2);
+                                    if v.is_none() {
+                                        // a queue that the first recovery still showed may not vanish by restarting
+                                        if let Some(name) = obs.queues.keys().find(|n| !obs2.queues.contains_key(*n)) {
+                                            v = Some(("queue-lost-by-clean-restart".to_string(), format!("queue (name {} B) was present after the first open and is gone after a clean restart", name.len())));
+                                        }
+                                    }
+                                    v
+                                }
+                                _ => batch_atomicity(d, d.steps.len(), &obs2).map(|m| ("batch-torn-by-damage".to_string(), m)),
+                            };
+                            if let Some((clause, msg)) = verdict {
+                                let prop_static: &'static str = match prop { "C08" => "C08", "C09" => "C09", _ => "C12" };
+                                ev.failures.push(fail(prop_static, &format!("{clause}-after-clean-restart"), idx, format!("{what}, open, clean restart: {msg}")));
+                            }
+                        }
+                    }
+                }
+            }
             if prop == "C10" {
                 // the read accessors of the returned log, incl. range probes, must not panic
                 let qnames: Vec<String> = obs.queues.keys().cloned().collect();
